@@ -125,7 +125,11 @@ def jobs(tier):
 
 
 def main(tier):
+    from . import alpha
     js = jobs(tier)
+    for (lab, kind, p_) in alpha.interaction_programs(tier):
+        if kind in ("resource0", "resource"):
+            js.append({"program": p_, "families": ["task", "resource"], "family": "interaction:" + lab.split("/")[1]})
     for j in js:
         # the busy bounds of every assignment are explored too: the interval each worker is held
         # must be the one the requirement implies (static, delayed, selected) or lie inside the task (dynamic)
